@@ -249,8 +249,8 @@ pub fn check() -> Check {
         assumptions: &["bincode is given a 64 KiB byte limit (unbounded configs can request huge allocations on hostile length prefixes; allocation aborts are outside the crate's stated guarantees)"],
         required: &["roundtrips", "limit_sizes_tried", "truncations_tried", "hostile_rejected"],
         workloads: vec![
-            Workload { name: "codec", f: codec_case, quick: 30_000, thorough: 1_500_000, flav: Flav::Both },
-            Workload { name: "through_foca", f: through_foca, quick: 600, thorough: 30_000, flav: Flav::Checked },
+            Workload { name: "codec", f: codec_case, quick: 60_000, thorough: 1_500_000, flav: Flav::Both },
+            Workload { name: "through_foca", f: through_foca, quick: 1_200, thorough: 30_000, flav: Flav::Checked },
         ],
         exhaustive: false,
         aggregate: None,
